@@ -91,6 +91,8 @@ def reference(case, data=None):
         out.update(status="noncanonical")
     except refsem.RaggedEOF:
         out.update(status="ragged-eof")
+    except (refsem.Unsupported, MemoryError):
+        out.update(status="unsupported")
     out["leaves"] = sem.enum_leaves
     out["unions"] = sem.union_spans
     sem.enum_leaves = None
